@@ -167,3 +167,45 @@ func VerifC18Snapshot() {
 		vAssert(err != nil, "C18.refused-after-query")
 	}
 }
+
+// VerifC12RuleOrder: a chain of three rules gives the same outcome and the same derived facts in
+// every order of registration (here all six), also when one of the rules lives in the token.
+func VerifC12RuleOrder() {
+	vForbidPanic("C12")
+	vTimerMode(0)
+	gNames, gVarName = 0, "x"
+	c := vInt64("c")
+	chain := []gRule{
+		{head: gAtom{name: "t", isVar: true}, body: []gAtom{{name: "s", isVar: true}}},
+		{head: gAtom{name: "u", isVar: true}, body: []gAtom{{name: "t", isVar: true}}},
+		{head: gAtom{name: "w", isVar: true}, body: []gAtom{{name: "u", isVar: true}}},
+	}
+	perms := [][3]int{{0, 1, 2}, {0, 2, 1}, {1, 0, 2}, {1, 2, 0}, {2, 0, 1}, {2, 1, 0}}
+	pm := perms[vChoose("order", 6)]
+	inToken := vChoose("first-rule-in-token", 2) == 1
+	build := func(order [3]int) gRun {
+		authority := gBlock{facts: []gAtom{{name: "s", c: c}}}
+		var z gAuthz
+		for _, k := range order {
+			if inToken && k == 0 {
+				authority.rules = append(authority.rules, chain[k])
+			} else {
+				z.rules = append(z.rules, chain[k])
+			}
+		}
+		z.checks = [][]gRule{{{body: []gAtom{{name: "w", isVar: true}}}}}
+		z.policies = []gPolicy{{queries: []gRule{{body: []gAtom{{name: "w", c: c}}}}}}
+		g := gBuildToken(authority, nil)
+		probe := Rule{Head: Predicate{Name: "r", IDs: []Term{Variable("x")}}, Body: []Predicate{{Name: "w", IDs: []Term{Variable("x")}}}}
+		return gAuthorize(g.tok, z, probe)
+	}
+	first := build([3]int{0, 1, 2})
+	second := build(pm)
+	vObserve("class", first.class)
+	vCover("compared")
+	vAssert(first.class == oAllow, "C12.chain-derives")
+	vAssert(first.class == second.class, "C12.same-outcome")
+	if !first.qerr && !second.qerr {
+		vAssert(gSetEq(first.facts, second.facts), "C12.same-derived-facts")
+	}
+}
